@@ -18,7 +18,7 @@ LEVEL_TEXT = (
     "Fault enumeration: for each generated (store class or staged_write/staged_write_path helper, str/pathlib path, previous "
     "value or none, new value incl. values whose serialisation fails part-way, encoding) a fault-free write first learns "
     "the stream of file operations (open, every write() call, close, rename); the write is then repeated with a fault "
-    "before EVERY operation index k, for each fault kind in {OSError, KeyboardInterrupt, os._exit in a forked child}. "
+    "before EVERY operation index k, for each fault kind in {one-shot OSError(EIO), persistent PermissionError, KeyboardInterrupt, os._exit in a forked child}. "
     "Oracle on the file system afterwards: target bytes are the complete previous or the complete new value, the modified "
     "time changed iff the new value is in place, no *.STAGING entry after an exception, and after a kill the next "
     "write+read succeeds. Exhaustive over k for every generated case; bounded in values; presence not absence."
